@@ -22,6 +22,8 @@ def run(ctx):
     resume_follows_clear(ctx, "C06")
     saved_context_is_a_copy(ctx, "C06")
     detector_walk_every_tick(ctx, "C06")
+    from .C11 import instances_kept_only_if_ran
+    instances_kept_only_if_ran(ctx)
     # locals / parameters the rules below refer to by name (a rename makes the analysis 'broken', never a violation)
     ctx.anchor(ctx.fn1('Oomd::Engine::Ruleset::runOnceImpl'), 'context')
     ctx.anchor(ctx.fn1('Oomd::Engine::Ruleset::run_action_chain'), 'action', 'context')
